@@ -690,10 +690,29 @@ func c09DeepCopy(c C) {
 	})
 	r.Check("K4", "state.(*StateDB).Copy/no-shared-object", p.Pos(cp.Pos()), okObj, "only deep copies are installed in the copy's stateObjects")
 	logOK := false
+	// the element-wise copy may sit in Copy itself or in a private helper it calls
+	scan := []*ssa.Function{cp}
 	ir.Instrs(cp, func(in ssa.Instruction) {
-		if st, ok := in.(*ssa.Store); ok {
-			if strings.HasPrefix(ir.Render(st.Addr), "&make([]*types.Log") && strings.HasPrefix(ir.Render(st.Val), "&new:types.Log") {
-				logOK = true
+		if call, ok := in.(*ssa.Call); ok {
+			if callee := call.Call.StaticCallee(); callee != nil && callee.Blocks != nil && callee.Pkg == cp.Pkg && callee != cp {
+				scan = append(scan, callee)
+			}
+		}
+	})
+	for _, fn := range scan {
+		ir.Instrs(fn, func(in ssa.Instruction) {
+			if st, ok := in.(*ssa.Store); ok {
+				if strings.HasPrefix(ir.Render(st.Addr), "&make([]*types.Log") && strings.HasPrefix(ir.Render(st.Val), "&new:types.Log") {
+					logOK = true
+				}
+			}
+		})
+	}
+	// and what is installed under the copy's logs is never the source slice itself
+	ir.Instrs(cp, func(in ssa.Instruction) {
+		if mu, ok := in.(*ssa.MapUpdate); ok && strings.Contains(ir.Render(mu.Map), "logs") {
+			if v := ir.Render(mu.Value); strings.HasPrefix(v, "rangeval(") || strings.HasPrefix(v, "s.logs[") {
+				logOK = false
 			}
 		}
 	})
